@@ -22,7 +22,7 @@ func init() {
 	core.Register(&core.Check{
 		ID:    "C19",
 		Level: "exploration",
-		Rule:  "random sequences of 1-60 graphics calls (move/line/rect/circle/poly/ellipse/text/clear/grid/gridn and the style setters color/hsl/width/stroke/fill/dash/linecap/font) with style changes between every pair of shapes in some runs and never in others, degenerate arguments (0, negative, NaN, infinities, huge, empty and markup-like strings, dash with 0/odd/negative segments, poly with 0-2 vertices, ellipse with 3/4/5/7 arguments, gridn with fractional and large units); driven through the library (cli platform with SVG, in-process) and sampled through `evy run --svg-out -`/file with --svg-width/height/style; the output is parsed by a strict XML parser, flattened (group nesting and inherited presentation attributes resolved down to leaf shapes) and compared with a reference pen model. distinct = distinct call sequences",
+		Rule:  "random sequences of 1-60 graphics calls (move/line/rect/circle/poly/ellipse/text/clear/grid/gridn and the style setters color/hsl/width/stroke/fill/dash/linecap/font) with style changes between every pair of shapes in some runs and never in others, degenerate arguments (0, negative, NaN, infinities, huge, empty and markup-like strings, dash with 0/odd/negative segments, poly with 0-2 vertices, ellipse with 3/4/5/7 arguments, gridn with fractional and large units); driven through the library (cli platform with SVG, in-process; every third drawing directly after an unrelated drawing with other fonts, pens and grids, every seventh rendered twice) and sampled through `evy run --svg-out -`/file with --svg-width/height/style; the output is parsed by a strict XML parser, flattened (group nesting and inherited presentation attributes resolved down to leaf shapes) and compared with a reference pen model. distinct = distinct call sequences",
 		Assumptions: []string{
 			"text colour: the effective fill of a text may be the pen's fill or stroke colour (documentation and golden files disagree); text outline not judged",
 			"not judged: font baseline mapping, ellipse start/end angles (documented as not implemented), NaN/Inf geometry (only well-formedness)",
@@ -634,10 +634,27 @@ func c19Run(c *core.Ctx, i int) {
 	for _, g := range seq {
 		c.Cover("call", g.name)
 	}
+	if i%3 == 1 {
+		// another drawing rendered in this process just before: nothing of it may show in this one
+		polluters := []string{
+			"font {size:4 style:\"italic\"}\ngrid\n", "font {family:\"serif\" size:9 weight:700}\ngridn 10 \"red\"\n", "width 3\ncolor \"blue\"\ngrid\nfont {size:2}\ntext \"t\"\n",
+			"dash 3 1\nlinecap \"round\"\ngridn 5 \"green\"\n", "fill \"none\"\nstroke \"red\"\ngrid\ncircle 3\n", "clear \"black\"\nfont {baseline:\"top\" align:\"right\" letterspacing:2}\ngrid\nmove 1 1\n",
+		}
+		_, _, _ = c19Library(polluters[c.Rng.Intn(len(polluters))])
+		c.Event("renderings_after_another_drawing", 1)
+	}
 	doc, runErr, goPanic := c19Library(src)
 	if goPanic != "" {
 		c.Violation("crash", "Go panic while drawing: "+firstN(goPanic, 200), src, nil)
 		return
+	}
+	if i%7 == 3 {
+		// the same drawing rendered again in the same process gives the same bytes
+		doc2, _, _ := c19Library(src)
+		if doc2 != doc {
+			c.Violation("rendering-depends-on-history", "rendering the same drawing twice in one process gave different documents: "+firstDiff(doc, doc2), src, nil)
+			return
+		}
 	}
 	// does the model expect a panic?
 	pen := newPen()
